@@ -191,9 +191,6 @@ def CloneLoopFacts_DetectClonesWithLSH : List String := [
   "assign: pair := cd.compareFragments(f1, f2)",
   "if: pair != nil && cd.isSignificantClone(pair)",
   "assign: cd.clonePairs = append(cd.clonePairs, pair)",
-  "if: thr < 0.0",
-  "if: thr > 1.0",
-  "if: k < 2",
   "return: cd.clonePairs, cd.cloneGroups"
 ]
 
